@@ -7,13 +7,20 @@ REPO="$1"; OUT="$2"
 HERE="$(cd "$(dirname "$0")/.." && pwd)"
 mkdir -p "$OUT/src" "$OUT/include" "$OUT/examples"
 cp "$REPO"/include/*.h "$OUT/include/"
-python3 "$HERE/engine/instrument.py" "$OUT/src" "$REPO"/src/*.c "$REPO"/src/*.h || exit 3
+# 2.2(a): type-aware rewrite of vector `>>` in the SIMD files (before the instrumentation points go in)
+mkdir -p "$OUT/pre"
+cp "$REPO"/src/*.c "$REPO"/src/*.h "$OUT/pre/"
+for f in "$REPO"/src/*-vec128.c "$REPO"/src/*-vec256.c; do
+  fl="-msse2"; case "$f" in *vec256.c) fl="-mavx2";; esac
+  python3 "$HERE/engine/vshr.py" "$f" "$OUT/pre/$(basename "$f")" "$REPO/include" $fl ${VERIF_CONFIG_DEFS} 2>>"$OUT/vshr.log" || exit 3
+done
+python3 "$HERE/engine/instrument.py" "$OUT/src" "$OUT"/pre/*.c "$OUT"/pre/*.h || exit 3
 mv "$OUT/src/verif_defaults.h" "$OUT/verif_defaults_src.h"
 mv "$OUT/src/verif_points.json" "$OUT/verif_points_src.json"
 python3 "$HERE/engine/instrument.py" "$OUT/examples" "$REPO"/examples/*.c "$REPO"/examples/*.h || exit 3
 mv "$OUT/examples/verif_defaults.h" "$OUT/verif_defaults_examples.h"
 mv "$OUT/examples/verif_points.json" "$OUT/verif_points_examples.json"
-cat "$OUT/verif_defaults_src.h" "$OUT/verif_defaults_examples.h" > "$OUT/verif_defaults.h"
+cat "$HERE/contracts/verif_vshr.h" "$OUT/verif_defaults_src.h" "$OUT/verif_defaults_examples.h" > "$OUT/verif_defaults.h"
 python3 "$HERE/spec/gen_spec.py" "$OUT/spec_gen.h"
 cp "$HERE"/spec/spec_ref.[ch] "$OUT/"
 mkdir -p "$OUT/contracts" "$OUT/harness"
